@@ -29,6 +29,7 @@ func init() {
 			rulePortCutAtLastColon(c, "R8")
 			ruleCombinators(c, "R10")
 			ruleReadersWriteNothing(c, "R11", "hosts", "router")
+			ruleEntryConditionBelongsToTheGroup(c, "R12")
 		},
 	})
 	register(&Spec{
